@@ -24,6 +24,9 @@ CHECKS = {
  "C19": ("Exhaustive exploration of the real generator's choice tree under a scripted random number generator (hook penne::verif): one raw answer per token kind is discovered by sweeping the labelled token draw (60 kinds); every sequence of 2 (quick) / 3 (thorough) consecutive token kinds is forced at several ordinal positions with the separator decision before each forced token taken both ways; inside each token kind every spelling draw is deviated to each of 84 grid answers (bound 1) and the first 8 draws pairwise over a 9-value grid (bound 2); newline/comment scheduling draws are deviated at three capacities. Every output must be at least 95% of the capacity and both real lexers must report no lexical error; tape replay determinism is re-checked on every 64th run. A small labelled sampling supplement runs the real thread RNG at CLI sizes.",
          "Trusted: the RNG seam (src/verif.rs) forwards to the real generator when no tape is installed. Raw answers between grid points, joint deviations across more than three adjacent tokens and tapes beyond the 6000-draw horizon are not explored.",
          "stateless exploration of the generator's choice tree with a deviation bound, under a scripted RNG", "5 (C19)"),
+ "C04": ("Bounded exhaustive exploration: every function body (up to renaming of the two labels) built from {A:, B:, goto A, goto B, if c goto A, if c goto B} and nested blocks with at most 6 statements and nesting depth 3 (quick; thorough: 7 statements, and 8 at depth 2), in three variants (void function; function with a return value where B is the special label `return`; a second function holding labels of the same names), is compiled by the real first-generation pipeline and compared with the reference label-scoping model: accepted iff no illegal goto and no clash; E400 present iff an illegal goto exists and only on lines of illegal gotos; E420 present iff a clash exists and only on clashing labels; no other code.",
+         "Trusted: model/labels.rs (transcribed from docs/features.md and docs/errors.md). Not covered: bodies beyond the size bound (the property text's random bodies up to 40 statements).",
+         "explicit-state enumeration of all programs of a small scope with symmetry reduction, verdicts compared with a reference model", "5 (C04)"),
 }
 
 NOT_YET = {}
